@@ -279,7 +279,7 @@ func genDeep(prop string, r *sim.Rand) sim.Script {
 // block writes at most one key, so no map iteration order is observable), then
 // 2-5 tasks (committers and readers) for the seeded scheduler.
 func GenSched(r *sim.Rand, tier string) sim.Script {
-	s := &Script{Prop: "C08", Values: "bytes"}
+	s := &Script{Prop: "C08", Values: "bytes", Scribble: r.Chance(1, 2)}
 	nKeys := 1 + r.Intn(3)
 	nv := 0
 	// hot-key prefix: a committed chain in which every block wrote k0, as long as the per-key version table
